@@ -131,9 +131,19 @@ def check_read_conf(ctx, rng):
             os.makedirs(d, exist_ok=True)
         defaults = {'transport': plat.default_transport(), 'pib': 'pib-sqlite3', 'tpm': 'tpm-file'}
         default_locs = {'pib': os.path.join(home, '.ndn'), 'tpm': os.path.join(home, '.ndn', 'ndnsec-key-file')}
+        # (a location that exists is used as given - also when it is a regular file, e.g. the pib.db file itself)
+        a_file = os.path.join(root, 'stores', 'pib.db')
+        with open(a_file, 'w') as f_:
+            f_.write('x')
+        for c in all_user_cands + sys_cands:
+            with open(os.path.join(os.path.dirname(c), 'relfile.db'), 'w') as f_:
+                f_.write('x')
         loc_choices = {'none': None, 'abs': 'ABS', 'rel-file': 'relstore', 'rel-cwd': 'cwdstore', 'missing-abs': os.path.join(root, 'nope'),
-                       'missing-rel': 'nonexistent-dir'}
-        transports = ['unix:///tmp/x.sock', 'tcp://10.0.0.1:7000', 'udp4://host.example'] + (['unix:///tmp/nfd-sœur/ü.sock'] if utf8 else [])
+                       'missing-rel': 'nonexistent-dir', 'abs-regular-file': a_file, 'rel-regular-file': 'relfile.db'}
+        # (a transport this library has no face for - another implementation's, or a typo - is still the configured value: it is refused
+        # when a face is made from it, not silently replaced by the platform default while the file is read)
+        transports = ['unix:///tmp/x.sock', 'tcp://10.0.0.1:7000', 'udp4://host.example', 'ws://router.example:9696/ws', 'unxi:///run/nfd/nfd.sock'] + \
+            (['unix:///tmp/nfd-sœur/ü.sock'] if utf8 else [])
 
         def value_for(key, loc_kind, variant):
             if key == 'transport':
